@@ -20,8 +20,9 @@ import (
 
 func init() {
 	core.Register(&core.Prop{
-		ID:    "C02",
-		Level: "exploration",
+		ID:         "C02",
+		Level:      "exploration",
+		BlockingOK: true, // the worker waits for its child processes
 		Rule: "generated templates biased to what consumes maps (for/tablerow over maps of 2..12 entries with offset/limit/reversed, map-to-array filters first/last/join/sort/map/reverse/uniq/size/concat/compact, printing of maps, IterationKeyedMap, yaml.MapSlice, nested maps, maps inside Drops) plus general generated programs and application tags that write variables (Context.Set, and through the map Context.Bindings returns); for every case ALL of these must give byte-identical output (or the same error text, line and path): 30 renders of one parsed template, 10 fresh parses, 5 fresh engines, the six entry points Render / RenderString / FRender / ParseAndRender / ParseAndRenderString / ParseAndFRender (every fourth case also re-spelled with custom delimiters on engines configured with them), 6 rebuilds of the binding maps in PRNG-permuted insertion order with different capacities, and two fresh child processes re-rendering every case of the shard, the second one in the opposite order; plus a date family: date strings written in 16 layouts x 9 zone spellings, each rendered through the date filter and through comparisons after different histories of other date strings (what was parsed earlier in the process must not matter); plus the cmd/liquid binary (stdin and FILE argument, --env under env -i, with and without --strict) against the library. Non-trivial = the template consumes a map with >= 2 entries; distinct = distinct (template, logical bindings).",
 		Exhaustive: func(string) bool { return false },
 		Assumptions: []string{
@@ -104,6 +105,8 @@ func c02Gen(r *core.Rand, i int) c02case {
 		"{{ pm }}|{{ ps | join: ',' }}|{{ ps }}|{{ pps }}|{{ mps }}", "{{ 'x' | append: ps }}|{{ pm | join: '+' }}|{{ mps.k | join: ',' }}|{{ pps | first | join: ',' }}|{{ pm.a }}{{ pst.s.Name }}{{ pps[1][0] }}",
 		// ... and spelled by json and inspect, and by the error messages of conversions that they cannot undergo
 		"{{ pm | json }}|{{ ps | json }}|{{ pps | inspect }}|{{ mps | json }}|{{ pst | json }}", "{{ ps | plus: 1 }}", "{% include pps %}", "{% for x in (1..pm) %}{% endfor %}", "{{ 'abc' | slice: mps }}", "{{ 1 | divided_by: ps }}",
+		// output that is not valid UTF-8 (a string value is emitted exactly; url_decode yields whatever bytes its input spells): the same bytes from every entry point
+		"{{ badutf }}|{{ '%ff%c3%28%f0%9f' | url_decode }}|{{ badutf | append: 'x' | size }}|{{ badutf | upcase }}", "{% capture c %}{{ '%e9' | url_decode }}{% endcapture %}[{{ c }}]{{ badutf | slice: 0, 2 }}",
 		// application tags that write: what they write belongs to one render
 		"{% xbump hits %}{% xbump hits %}hits={{ hits }} {% xbump n %}n={{ n }}{% xset seen = hits %}{{ seen }}", "{% for kv in flat %}{% xbump count %}{% endfor %}{{ count }}{% xbump flat %}{{ flat }}",
 		"{{ anyn | join: ',' }}|{{ anys | first | last }}|{% tablerow kv in anye %}{{ kv[1] }}{% endtablerow %}|{{ bigkeys | join: ',' }}|{% for kv in bigkeys %}{{ kv[0] }};{% endfor %}",
@@ -183,6 +186,7 @@ func (cs c02case) bind(r *core.Rand) map[string]any {
 	// typed containers of pointers: freshly allocated on every rebuild, so an address in the output shows at once
 	pi := func(i int) *int { return &i }
 	ps := func(s string) *string { return &s }
+	b["badutf"] = "ok\xff\xc3(\xf0\x9f end"
 	b["pm"] = map[string]*int{"a": pi(1), "b": pi(2), "n": nil}
 	b["ps"] = []*string{ps("x"), ps("y")}
 	b["pps"] = [][]*int{{pi(1), pi(2)}, {pi(3)}}
@@ -358,6 +362,53 @@ func runC02(c *core.Ctx) {
 		}
 	}
 	c02CLI(c)
+	c02LateStrict(c)
+}
+
+// c02LateStrict: an engine has one configuration at any time. StrictVariables called after a template was parsed
+// changes that configuration; from then on every entry point - Render, RenderString and FRender of the template
+// parsed earlier as much as a fresh parse - renders the source under it, so they all agree.
+func c02LateStrict(c *core.Ctx) {
+	if c.Shard != 2%c.NShards || !c.Begin("late-strict family") {
+		return
+	}
+	srcs := []string{"a={{ a }};[{{ missing }}]", "{% if missing %}x{% else %}y{% endif %}|{{ a }}", "{{ a | plus: 1 }}{% for x in missing %}{{ x }}{% endfor %}|{{ missing | default: 'd' }}",
+		"line1\n{% if a %}\n  {{ missing.k }}{% endif %}", "{{ a }}", "{% assign m = missing %}[{{ m }}]", "{% include 'late-strict-part.html' %}"}
+	b := map[string]any{"a": 1}
+	for _, src := range srcs {
+		e := liquid.NewEngine()
+		core.ParseCache(e, "[part {{ missing }}]", "late-strict-part.html", 1)
+		tpl, pr := core.ParsePlain(e, src)
+		if !pr.OK() {
+			continue
+		}
+		lax := core.Render(tpl, b)
+		e.StrictVariables()
+		type obs struct {
+			how string
+			r   core.Res
+		}
+		all := []obs{{"Render of the template parsed before StrictVariables", core.Render(tpl, b)}, {"RenderString of it", core.RenderString(tpl, b)}, {"FRender of it", core.FRender(tpl, nil, b)},
+			{"ParseAndRender", core.ParseAndRender(e, src, b)}, {"ParseAndRenderString", core.ParseAndRenderString(e, src, b)}, {"ParseAndFRender", core.ParseAndFRender(e, nil, src, b)}}
+		strict := liquid.NewEngine()
+		strict.StrictVariables()
+		core.ParseCache(strict, "[part {{ missing }}]", "late-strict-part.html", 1)
+		all = append(all, obs{"an engine that was strict from the start", core.Run(strict, src, b)})
+		c.Eval(len(all) + 1)
+		c.Obs("late_strict_cases", 1)
+		c.Distinct("late-strict", src)
+		for _, o := range all[1:] {
+			if !o.r.Same(all[0].r) || o.r.Panic != "" {
+				var lines []string
+				for _, x := range all {
+					lines = append(lines, x.how+" => "+x.r.Brief())
+				}
+				c.Violate("nondeterministic|late-strict", "after StrictVariables the entry points disagree about the same source and bindings on one engine (a template parsed earlier renders under another configuration than a fresh parse)",
+					map[string]any{"source": src, "before_StrictVariables": lax.Brief(), "results": lines})
+				break
+			}
+		}
+	}
 }
 
 // c02Disturb performs unrelated renders, some of which fail part-way inside loops.
